@@ -660,7 +660,8 @@ func (g *pgen) slice(n *pnode, ctx pctx) {
 	}
 	// append / prepend / replace: the configured and the pre-filled elements
 	// are separate values
-	if n.t.elem.needsCfg() {
+	if n.t.elem.needsCfg() || mode == "replace" && n.t.elem.hasStructMap() {
+		// (replace: Unpack merges the configured elements into copies of the old ones)
 		nPre = 0
 	}
 	present := nCfg > 0 || ctx.canCfg && !req && r.Intn(2) == 0 // present and empty: `[]`
